@@ -679,3 +679,36 @@ class MakeImpedance(Contract):
         out.append(('passive_without_file', {'C16', 'C07'}, Implies(And(inr, Not(sel['file'])), cx.sel(data, k, 're') >= 0)))
         out.append(('upper_zero_without_file', {'C16'}, Implies(And(inr, Not(sel['file']), k > n / 2), And(cx.sel(data, k, 're') == 0, cx.sel(data, k, 'im') == 0))))
         return out
+
+
+# =========================================================================== Impedance::readData (impedance file, C17)
+class ImpedanceReadData(Contract):
+    """readData(fname): for EVERY content of the file (empty, malformed, any number of lines, trailing newline) no value is
+    used that was not read, and the result is a well-formed vector (any length).  std::istream is modelled by its fail/eof
+    flags (specs/ps.py IStream)."""
+    name = 'vfps::Impedance::readData'
+    tu = 'src/Z/Impedance.cpp'
+    params = ['fname']
+    tags = {'C17'}
+    replay = lambda self, o, model, pid: {'harness': 'ef_replay', 'runs': [['zfile']]}
+
+    def assigns(self, cx):
+        return [('s', 'ghost.*'), ('s', 'init:*')]
+
+    @property
+    def calls(self):
+        from .ps import IStream
+        noop = lambda ex, n, st, objn, argn, this_override=None: VoidV()
+        return {'operator>>': IStream.extract, 'good': IStream.good, 'operator bool': IStream.as_bool, 'fail': IStream.failed,
+                'ctor:std::basic_ifstream<char>': lambda ex, n, st, objn, argn, this_override=None: ObjRef(this_override, 'std::ifstream'),
+                'ctor:std::ifstream': lambda ex, n, st, objn, argn, this_override=None: ObjRef(this_override, 'std::ifstream'),
+                'max': lambda ex, n, st, objn, argn, this_override=None: IntV(I(2 ** 64 - 1), parse_type_str('unsigned long')),
+                'close': noop}
+
+    def ensures(self, cx):
+        return [('returns_vector', {'C17'}, z3.BoolVal(isinstance(cx.ret, ObjRef)))]
+
+    @property
+    def loops(self):
+        l = LoopSpec(inv=lambda cx: [('len', cx.st.len_of(cx.val('rv').name) >= 0)])
+        return {'while#0': l}
